@@ -44,7 +44,7 @@ func runC06(run *common.Run) {
 		})
 		for round := 0; round < run.N(3, 30) && !run.TooMany(); round++ {
 			if run.Want("round", round) {
-				c18Round(run, round, "btree", run.N(10, 20))
+				c18Round(run, round, "btree", run.N(16, 24))
 			}
 		}
 		bttest.VerifSetHandler(nil)
